@@ -38,7 +38,8 @@ Mpd == /\ e.ev = "mpd"
                    after == H.stop >= 0 /\ TLt(stopU, rnow)          \* C05.stop: the request instant is after the stop time
                    now   == IF after THEN stopU ELSE rnow             \* the presentation is frozen at the stop time
                    E     == IF Timeline THEN Expand(SC, e.S) ELSE <<>>
-                   first == IF Len(E) > 0 THEN IdxOfStart(SC, E[1].t) ELSE <<-1, -1>>
+                   \* audio follows the video grid (C03): no own grid here, only contiguity and the fetch clauses
+                   first == IF Len(E) > 0 /\ H.kind # "audio" THEN IdxOfStart(SC, E[1].t) ELSE <<-1, -1>>
                    last  == IF Len(E) > 0 /\ first[1] >= 0 THEN Plus(SC, first, Len(E) - 1) ELSE <<-1, -1>>
                    pt    == NowU(e.pt)
                    had   == prev.ok
@@ -50,10 +51,11 @@ Mpd == /\ e.ev = "mpd"
                          <<"type", e.type, "mediaPresentationDuration_ms", e.mpdur, "tsbd_ms", e.tsbdDecl, "mup", e.hasMup, "after_stop", after>>)
                /\ IF Timeline THEN
                     /\ Clause("C02.contig", \A j \in 1..Len(E) : E[j].gapless, "explicit @t does not continue the previous entry")
-                    /\ Clause("C02.grid", Len(E) > 0 => (first[1] >= 0 /\ OnGrid(SC, E, first)),
+                    /\ Clause("C02.grid", (Len(E) > 0 /\ H.kind # "audio") => (first[1] >= 0 /\ OnGrid(SC, E, first)),
                               <<"first_t", IF Len(E) > 0 THEN E[1].t ELSE TZero, "first_idx", first>>)
                     \* C02.last / C05.step: the last entry is the newest segment available at now; empty iff none is
-                    /\ Clause("C02.last", IF Len(E) = 0 THEN NoneAvail(SC, now)
+                    /\ Clause("C02.last", IF H.kind = "audio" THEN TRUE
+                                          ELSE IF Len(E) = 0 THEN NoneAvail(SC, now)
                                           ELSE first[1] >= 0 => IsLast(SC, last[1], last[2], now),
                               <<"last", last, "now", e.now, "entries", Len(E)>>)
                     /\ Clause("C02.first", (Len(E) > 0 /\ first[1] >= 0) => FirstOK(SC, first, now), <<"first", first, "now", e.now>>)
@@ -79,7 +81,7 @@ Mpd == /\ e.ev = "mpd"
                   ELSE TRUE
                \* publishTime = instant of the most recent change at the live edge: the availability instant of the
                \* newest listed segment (within 1 ms: xs:dateTime has ms resolution), or AST when nothing is listed
-               /\ Clause("C05.pt_edge", (Timeline /\ e.hasPt /\ (Len(E) = 0 \/ first[1] >= 0)) =>
+               /\ Clause("C05.pt_edge", (Timeline /\ H.kind # "audio" /\ e.hasPt /\ (Len(E) = 0 \/ first[1] >= 0)) =>
                             IF Len(E) = 0 THEN TEq(pt, TZero)
                             ELSE LET a == Avail(SC, last[1], last[2])
                                      a0 == IF a.w < 0 THEN TZero ELSE a
@@ -92,7 +94,8 @@ Mpd == /\ e.ev = "mpd"
 
 \* ---- segments derived from the MPD, requested at the same instant (timeline modes)
 Fetch == /\ e.ev = "fetch"
-         /\ IF ~cur.ok THEN TRUE
+         \* (after a configured stop time the MPD is static; C02 speaks about the live MPD only)
+         /\ IF ~cur.ok \/ cur.after THEN TRUE
             ELSE IF e.j >= 1 /\ e.j <= Len(cur.E) THEN
                  /\ Clause("C02.served", e.st = 200, <<"entry", e.j, "of", Len(cur.E), "status", e.st>>)
                  /\ Clause("C02.match", e.st = 200 =>
@@ -105,7 +108,7 @@ Fetch == /\ e.ev = "fetch"
 
 \* ---- $Number$ template: membership decided by the DASH rule on the declared template
 FetchN == /\ e.ev = "fetchn"
-          /\ IF ~cur.ok \/ ~TemplateOK(SC, cur.tmplD, cur.tmplTS) THEN TRUE
+          /\ IF ~cur.ok \/ cur.after \/ ~TemplateOK(SC, cur.tmplD, cur.tmplTS) THEN TRUE
              ELSE LET tsc  == TemplateSc(SC, cur.tmplD, cur.tmplTS, cur.atoDecl)
                       now  == [w |-> cur.now.w, r |-> (cur.now.r \div H.TS) * cur.tmplTS]      \* now in the template's unit
                       k    == e.q[1]
